@@ -616,9 +616,15 @@ func (d *dbt) queryPlan(name string, cond stmt.Expr, groupBy []string, how strin
 		gb = strings.Join(hs, ",")
 	}
 	op := "qplan " + metricTok(name) + " " + gb + " " + toks
-	res := d.e.queryPlan(nsName, name, cond, groupBy)
+	res, res2 := d.e.queryPlan(nsName, name, cond, groupBy)
 	if !d.silent {
 		d.c.Op(op, res.line(groupBy))
+	}
+	if l1, l2 := res.line(groupBy), res2.line(groupBy); l1 != l2 {
+		// two shard contexts of ONE storage context (shared TagFilterResult) over the same index
+		d.c.Fail("second-shard-differs", fmt.Sprintf("the second shard context of the query answered %.200q, the first %.200q [%s]", l2, l1, op))
+	} else {
+		d.c.Branch("plan/second-shard-agrees")
 	}
 	d.c.Branch("query/" + how)
 	if cond == nil {
